@@ -132,3 +132,20 @@ func (c *Conn) VerifWriteBufHeld() bool { return c.writeBuf != nil }
 func (c *Conn) VerifCompressionNegotiated() (write, read bool) {
 	return c.newCompressionWriter != nil, c.newDecompressionReader != nil
 }
+
+// VerifErrors exposes the unexported sentinel errors so that the harness can classify errors
+// by identity rather than by message text.
+func VerifErrors() map[string]error {
+	return map[string]error{
+		"errWriteTimeout":        errWriteTimeout,
+		"errUnexpectedEOF":       errUnexpectedEOF,
+		"errBadWriteOpCode":      errBadWriteOpCode,
+		"errWriteClosed":         errWriteClosed,
+		"errInvalidControlFrame": errInvalidControlFrame,
+		"errInvalidCompression":  errInvalidCompression,
+		"errMalformedURL":        errMalformedURL,
+	}
+}
+
+// VerifWriteBufLen returns len(c.writeBuf) (0 when no buffer is held) and c.writeBufSize.
+func (c *Conn) VerifWriteBufLen() (int, int) { return len(c.writeBuf), c.writeBufSize }
